@@ -128,6 +128,10 @@ package ociclient
 //@   ensures[clean-end-only-after-verification] result.1 == io.EOF && r.verify ==>
 //@     r.n == r.desc.Size && digestOf(r.desc.Digest.Algorithm(), hashed(r.digester)) == r.desc.Digest
 //@   ensures[too-long-fails-at-once] result.1 == nil ==> r.n <= r.desc.Size
+// (the reader adds no failure of its own while the bytes fit the descriptor,
+// and hands on the source's own errors)
+//@   ensures[within-the-size-it-relays-the-source] err == nil && r.n <= r.desc.Size ==> result.1 == nil
+//@   ensures[source-errors-are-handed-on] err != nil && err != io.EOF ==> result.1 == err
 //@ func (*blobReader).Descriptor
 //@   modifies nothing
 //@   ensures result == r.desc
